@@ -12,6 +12,7 @@ import (
 	"sort"
 	"strings"
 	"sync"
+	"sync/atomic"
 	"syscall"
 	"time"
 
@@ -35,6 +36,7 @@ func init() {
 			"p4create": {N: func(t string) int { return tierN(t, 3, 160) }, Case: c15Case("p4"), Race: true, Env: raceEnv()},
 			"p5faulty": {N: func(t string) int { return tierN(t, 4, 240) }, Case: c15Case("p5"), Race: true, Env: raceEnv()},
 			"p6twodbs": {N: func(t string) int { return tierN(t, 3, 160) }, Case: c15Case("p6"), Race: true, Env: raceEnv()},
+			"p7batch":  {N: func(t string) int { return tierN(t, 1, 6) }, Case: c15Case("p7"), Race: true, Env: raceEnv()},
 		},
 	})
 }
@@ -175,6 +177,8 @@ func c15Case(prog string) func(string, int64, int, string) rt.CaseResult {
 			logs = c15Steady(&c, seed, idx, scratch, m, tierN(tier, 500, 900), true)
 		case "p4":
 			logs = c15Create(&c, seed, idx, scratch)
+		case "p7":
+			logs = c15BigBatch(&c, seed, idx, scratch)
 		case "p6":
 			// two (three) databases in one process, each used by its own goroutines at the same time:
 			// whatever fs_db keeps per process (sequence counter, pools, caches) is shared by them
@@ -510,5 +514,70 @@ func c15Create(c *rt.CaseResult, seed int64, idx int, scratch string) [][]tlog {
 }
 
 func init() {
-	Registry["C15"].Rule += " P6: two or three databases in one process (the third behind the server), each driven by its own goroutines at the same time. P5: the steady workload (inline and through the server) with faults injected by stateless fault functions - a few percent of the content writes fail (no space, fully or after half the chunk; EIO), of the metadata writes and file creations fail, one root reports less free space than the other, and one call in eight carries a context that expires within 20-600 us - so that the error and clean-up paths run concurrently under the race detector too."
+	Registry["C15"].Rule += " P7: clean-up batches of several thousand versions, i.e. more chunks of the cleaner than three times the workers (rollbacks and commits of transactions with 4300-8300 writes, one worker or two) while other goroutines write and read. P6: two or three databases in one process (the third behind the server), each driven by its own goroutines at the same time. P5: the steady workload (inline and through the server) with faults injected by stateless fault functions - a few percent of the content writes fail (no space, fully or after half the chunk; EIO), of the metadata writes and file creations fail, one root reports less free space than the other, and one call in eight carries a context that expires within 20-600 us - so that the error and clean-up paths run concurrently under the race detector too."
+}
+
+// c15BigBatch: one goroutine ends transactions whose clean-up is larger than one chunk of the
+// cleaner while others keep the database busy.
+func c15BigBatch(c *rt.CaseResult, seed int64, idx int, scratch string) [][]tlog {
+	env, err := dbx.Open(dbx.Options{Mode: dbx.Inline, Dir: filepath.Join(scratch, "db"), NumWorkers: 1 + idx%2, SendDuration: []time.Duration{1, time.Millisecond}[idx%2], GCPeriod: 50 * time.Millisecond})
+	if err != nil {
+		c.Violate("open-failed", err.Error(), nil)
+		return [][]tlog{{}}
+	}
+	defer env.Close()
+	logs := make([][]tlog, 4)
+	t0 := time.Now()
+	var wg sync.WaitGroup
+	var stop atomic.Bool
+	for g := 1; g < 4; g++ {
+		wg.Add(1)
+		go func(g int) {
+			defer wg.Done()
+			for i := 0; !stop.Load(); i++ {
+				s := time.Since(t0)
+				kind := []string{"set", "get", "getkeys", "delete"}[i%4]
+				c15Op(env.DB, kind, fmt.Sprintf("b%d", g), fmt.Sprintf("p7-%d-%d-%d", idx, g, i))
+				logs[g] = append(logs[g], tlog{kind, s, time.Since(t0)})
+				time.Sleep(3 * time.Millisecond)
+			}
+		}(g)
+	}
+	rounds := 1
+	if idx > 0 {
+		rounds = 3
+	}
+	for round := 0; round < rounds; round++ {
+		// more chunks of a thousand than three times the workers: the chunks queue up behind
+		// each other and the sender is well ahead of the workers
+		n := (3*(1+idx%2)+1)*1000 + 300 + 500*round
+		s := time.Since(t0)
+		tx, err := env.DB.Begin(ctxBg, verif.IsoLevel(1))
+		if err != nil {
+			break
+		}
+		for i := 0; i < n; i++ {
+			if i%64 == 0 {
+				rt.Beat()
+			}
+			if round == 1 {
+				tx.Set(ctxBg, fmt.Sprintf("big%d", i%(n/2)), []byte("v")) // every key twice: the commit supersedes half of the writes
+			} else {
+				tx.Delete(ctxBg, fmt.Sprintf("big%d", i))
+			}
+		}
+		kind := "rollback-big"
+		if round == 1 {
+			kind = "commit-big"
+			tx.Commit(ctxBg)
+		} else {
+			tx.Rollback(ctxBg)
+		}
+		logs[0] = append(logs[0], tlog{kind, s, time.Since(t0)})
+		time.Sleep(20 * time.Millisecond)
+	}
+	env.Drain()
+	stop.Store(true)
+	wg.Wait()
+	return logs
 }
